@@ -421,16 +421,71 @@ def resolveClass (W : World) (classes : List (String × String)) (name : String)
       | Option.none => (raise "TranslationError" (.str "unknown class"), [.imp m])
     else (raise "TranslationError" (.str "import"), [.imp m])
 
-/-- `-?(0|[1-9][0-9]*)(\.[0-9]+)?`: the literals `s` with `str(Decimal(s)) == s` the model describes. -/
+/- `str(Decimal(s)) == s`: the image of `Decimal.__str__` (the "to-scientific-string" of the General Decimal
+   Arithmetic specification).  With the coefficient digits `D` (no leading zero, or exactly "0") and the exponent `e`:
+   plain notation when `e ≤ 0` and `len(D) + e > -6`, otherwise one digit, the others after a point, and
+   `E+x` / `E-x` with `x = len(D) + e - 1`; `Infinity`, `NaN<payload>`, `sNaN<payload>`; an optional `-` in front
+   of each (`-0`, `-NaN` included). -/
+
+def allDigits (cs : List Char) : Bool := cs.all Char.isDigit
+
+/-- A natural number in decimal digits without a leading zero, or exactly "0". -/
+def canonNat : List Char → Bool
+  | [] => false
+  | ['0'] => true
+  | '0' :: _ => false
+  | cs => allDigits cs
+
+def countLeadingZeros : List Char → Nat
+  | '0' :: r => countLeadingZeros r + 1
+  | _ => 0
+
+def decNat (cs : List Char) : Nat := cs.foldl (fun n c => 10 * n + (c.toNat - '0'.toNat)) 0
+
+/-- `(0|[1-9][0-9]*)(\.[0-9]+)?`, and for `0.<fraction>`: at most five zeros between the point and the first
+    significant digit (`0.000001` is written so, `0.0000001` is written `1E-7`; `0.000000` so, `0.0000000` is `0E-7`). -/
+def canonPlain (cs : List Char) : Bool :=
+  let (ip, rest) := cs.span Char.isDigit
+  match rest with
+  | [] => canonNat ip
+  | '.' :: fr =>
+    canonNat ip && !fr.isEmpty && allDigits fr &&
+      (ip != ['0'] ||
+        (let k := countLeadingZeros fr
+         Nat.ble (if k == fr.length then k - 1 else k) 5))
+  | _ => false
+
+/-- `d(\.[0-9]+)?E[+-]x`: more than one coefficient digit ⇒ the first is not `0`; `E+x` needs `x ≥` the number of
+    coefficient digits (a positive exponent `e`), `E-x` needs `x ≥ 7`; `x` has no leading zero. -/
+def canonSci (cs : List Char) : Bool :=
+  let (m, rest) := cs.span (fun c => c != 'E')
+  match rest with
+  | 'E' :: sgn :: ds =>
+    let (d1, fr) := m.span Char.isDigit
+    let mantOk := match d1, fr with
+      | [_], [] => true
+      | [d], '.' :: r => d != '0' && !r.isEmpty && allDigits r
+      | _, _ => false
+    let nd := match fr with
+      | [] => 1
+      | _ :: r => 1 + r.length
+    mantOk && canonNat ds &&
+      (if sgn == '+' then Nat.ble nd (decNat ds) else sgn == '-' && Nat.ble 7 (decNat ds))
+  | _ => false
+
+/-- `Infinity`, `NaN`, `sNaN`, the last two with an optional diagnostic payload (digits, no leading zero). -/
+def canonSpecial (cs : List Char) : Bool :=
+  let payloadOk (p : List Char) : Bool := p.isEmpty || (canonNat p && p != ['0'])
+  match cs with
+  | ['I', 'n', 'f', 'i', 'n', 'i', 't', 'y'] => true
+  | 'N' :: 'a' :: 'N' :: p => payloadOk p
+  | 's' :: 'N' :: 'a' :: 'N' :: p => payloadOk p
+  | _ => false
+
+/-- The literals `s` with `str(Decimal(s)) == s`: what `str` of a Decimal can be. -/
 def canonDecimal (s : String) : Bool :=
   let cs := match s.toList with | '-' :: r => r | r => r
-  let (ip, rest) := cs.span Char.isDigit
-  let intOk := match ip with | [] => false | ['0'] => true | '0' :: _ => false | _ => true
-  let fracOk := match rest with
-    | [] => true
-    | '.' :: fr => !fr.isEmpty && fr.all Char.isDigit
-    | _ => false
-  intOk && fracOk
+  canonPlain cs || canonSci cs || canonSpecial cs
 
 /-- `fs[n] = v` keeping the position of an existing name. -/
 def setField (n : String) (v : PyVal) : List (String × PyVal) → List (String × PyVal)
